@@ -4,6 +4,6 @@ CONSTANTS
   Outcomes = {"same", "changed", "reject", "http500", "reset", "badjson", "emptybody"}
   MaxPlugins = 3
   CloseOp = "CloseProxy"
-  Deviations = {}
+  Deviations = {"CloseStopsAtError"}
 INVARIANTS ImplEqualsDecl ProceedIffAllAccepted UnregisteredNotConsulted CloseNotifiesAll
 CHECK_DEADLOCK FALSE
